@@ -581,6 +581,12 @@ class Interp(_Base):
                 if meth == "keys":
                     return R(TupleV([self.lift(k) for k in b.value], is_list=True))
                 return R(TupleV([self.lift(v) for v in b.value.values()], is_list=True))
+            if meth == "get" and isinstance(b, DictV) and args:
+                default = args[1] if len(args) > 1 else NONE
+                out = []
+                for s2, v in self.subscript(st, b, args[0], node):
+                    out.append((s2, default if isinstance(v, Raised) else v))
+                return out
             if meth == "index" and isinstance(b, TupleV) and args:
                 return R(IntV(0, max(len(b.items) - 1, 0), ("index",)))
             return R(self.undecided(st, node, "collection method " + meth))
@@ -601,6 +607,24 @@ class Interp(_Base):
             return R(self.undecided(st, node, name + "() over non-unrolled iterable"))
         if name == "round" and args and isinstance(args[0], IntV):
             return R(args[0])
+        if name == "sum":
+            seq = self._as_items(args[0]) if args else None
+            if seq is not None and all(isinstance(x, IntV) for x in seq):
+                return R(IntV(sum(x.lo for x in seq), sum(x.hi for x in seq), ("sum",) + tuple(x.sym for x in seq)))
+            return R(self.undecided(st, node, "sum of non-int"))
+        if name == "divmod" and len(args) == 2 and all(isinstance(a, IntV) for a in args):
+            q = self.int_arith(st, "FloorDiv", args[0], args[1], node)
+            r_ = self.int_arith(st, "Mod", args[0], args[1], node)
+            if isinstance(q, Raised):
+                return R(q)
+            return R(TupleV([q, r_]))
+        if name in ("set", "frozenset"):
+            if not args:
+                return R(TupleV([], True))
+            seq = self._as_items(args[0])
+            if seq is not None:
+                return R(TupleV(seq, True))
+            return R(self.undecided(st, node, "set of unknown iterable"))
         return R(self.undecided(st, node, "external call " + name))
 
     def _unknown_bool_v(self, st, sym):
@@ -897,8 +921,20 @@ class Interp(_Base):
             return R(StrV(None, sym=("replace", sv.sym)))
         if meth == "split":
             return R(self.undecided(st, node, "str.split"))
-        if meth in ("isdigit", "isalpha", "isspace"):
+        if meth in ("isdigit", "isalpha", "isspace", "isascii", "isupper", "islower", "isnumeric"):
             return R(BoolV(None, sym=(meth, sv.sym)))
+        if meth in ("count", "find", "rfind", "index"):
+            a = args[0] if args else None
+            if sv.vals is not None and isinstance(a, StrV) and a.is_const():
+                try:
+                    xs = [getattr(x, meth)(a.const()) for x in sv.vals]
+                    return R(IntV(min(xs), max(xs), (meth, sv.sym, a.const())))
+                except ValueError:
+                    return R(self.raised("str-index", "ValueError", node, "substring may be missing"))
+            lo = 0 if meth == "count" else -1
+            return R(IntV(lo, INF, (meth, sv.sym, a.const() if isinstance(a, StrV) and a.is_const() else None)))
+        if meth in ("partition", "rpartition"):
+            return R(TupleV([StrV(None, sym=(meth, sv.sym, i)) for i in range(3)]))
         return R(self.undecided(st, node, "str." + meth))
 
     def _is_const(self, v):
@@ -1166,9 +1202,39 @@ class Interp(_Base):
                     out.append((s1, ("next",)))
         return out
 
+    WHILE_BOUND = 12
+
     def st_While(self, n, st):
-        self.undecided(st, n, "while loop")
-        return [(st, ("next",))]
+        """Bounded unrolling: paths still looping after WHILE_BOUND iterations are
+        outside the analysed subset."""
+        out = []
+        states = [st]
+        for _ in range(self.WHILE_BOUND):
+            nxt = []
+            for s in states:
+                for s2, t in self.cond(n.test, s):
+                    if isinstance(t, Raised):
+                        out.append((s2, ("raise", t)))
+                    elif not t:
+                        if n.orelse:
+                            out.extend(self.exec_block(n.orelse, s2))
+                        else:
+                            out.append((s2, ("next",)))
+                    else:
+                        for s3, oc in self.exec_block(n.body, s2):
+                            if oc[0] in ("next", "continue"):
+                                nxt.append(s3)
+                            elif oc[0] == "break":
+                                out.append((s3, ("next",)))
+                            else:
+                                out.append((s3, oc))
+            states = merge_states(nxt) if len(nxt) > 1 else nxt
+            if not states:
+                break
+        for s in states:
+            self.undecided(s, n, "while loop not finished after {} iterations".format(self.WHILE_BOUND))
+            out.append((s, ("next",)))
+        return out
 
     def st_With(self, n, st):
         self.undecided(st, n, "with statement")
